@@ -182,6 +182,9 @@ pub struct Gen {
     pub max_vertices: usize,
     /// per-mille probability that an inserted vertex carries a non-finite coordinate
     pub nonfinite_permille: u64,
+    /// per-mille probability that an Edit-API handle is chosen among the combinatorially
+    /// plausible ones (face with the incident-cell count the move requires)
+    pub legal_bias_permille: u64,
 }
 
 fn present(snap: &Snap, p: &[f64]) -> bool {
@@ -203,6 +206,75 @@ impl Gen {
             former: Vec::new(),
             max_vertices: maxv,
             nonfinite_permille: 0,
+            legal_bias_permille: 0,
+        }
+    }
+
+    /// Faces (sorted vertex-key subsets of size `s`) having exactly `want` incident cells.
+    fn faces_with_star(snap: &Snap, s: usize, want: usize) -> Vec<Vec<u64>> {
+        let mut count: std::collections::BTreeMap<Vec<u64>, usize> = std::collections::BTreeMap::new();
+        for c in &snap.cells {
+            let n = c.verts.len();
+            if s > n || n > 16 {
+                continue;
+            }
+            for mask in 0u32..(1u32 << n) {
+                if mask.count_ones() as usize != s {
+                    continue;
+                }
+                let mut f: Vec<u64> = (0..n).filter(|i| mask >> i & 1 == 1).map(|i| c.verts[i]).collect();
+                f.sort_unstable();
+                *count.entry(f).or_insert(0) += 1;
+            }
+        }
+        count.into_iter().filter(|(_, c)| *c == want).map(|(f, _)| f).collect()
+    }
+
+    /// A combinatorially plausible Edit-API move of the given generator slot, if any.
+    fn plausible(&self, rng: &mut Rng, snap: &Snap, obj: usize, slot: usize) -> Option<Op> {
+        let d = self.dim;
+        let k2u = snap.key_to_uuid();
+        let vr = |k: &u64| k2u.get(k).map(|u| VRef::Uuid(Hex128(*u)));
+        match slot {
+            4 => {
+                let f = Self::faces_with_star(snap, 1, d + 1);
+                if f.is_empty() {
+                    return None;
+                }
+                Some(Op::FlipK1Remove { obj, v: vr(&rng.pick(&f)[0])? })
+            }
+            6 if d >= 3 => {
+                let f = Self::faces_with_star(snap, d - 1, 3);
+                if f.is_empty() {
+                    return None;
+                }
+                let ridge = rng.pick(&f).clone();
+                let cells: Vec<&crate::snap::SCell> = snap.cells.iter().filter(|c| ridge.iter().all(|v| c.verts.contains(v))).collect();
+                let c = *rng.pick(&cells);
+                let omit: Vec<u8> = (0..c.verts.len()).filter(|i| !ridge.contains(&c.verts[*i])).map(|i| i as u8).collect();
+                if omit.len() != 2 {
+                    return None;
+                }
+                let us: Option<Vec<Hex128>> = c.verts.iter().map(|k| k2u.get(k).map(|u| Hex128(*u))).collect();
+                Some(Op::FlipK3 { obj, cell: CRef::Verts(us?), omit_a: omit[0], omit_b: omit[1] })
+            }
+            7 if d >= 3 => {
+                let f = Self::faces_with_star(snap, 2, d);
+                if f.is_empty() {
+                    return None;
+                }
+                let e = rng.pick(&f);
+                Some(Op::FlipK2Inv { obj, a: vr(&e[0])?, b: vr(&e[1])? })
+            }
+            8 if d >= 4 => {
+                let f = Self::faces_with_star(snap, 3, d - 1);
+                if f.is_empty() {
+                    return None;
+                }
+                let t = rng.pick(&f);
+                Some(Op::FlipK3Inv { obj, a: vr(&t[0])?, b: vr(&t[1])?, c: vr(&t[2])? })
+            }
+            _ => None,
         }
     }
 
@@ -323,7 +395,15 @@ impl Gen {
             }
             w[0] = w[0].max(20);
         }
-        match rng.weighted(&w) {
+        let slot = rng.weighted(&w);
+        if self.legal_bias_permille > 0
+            && matches!(slot, 4 | 6 | 7 | 8)
+            && rng.below(1000) < self.legal_bias_permille
+            && let Some(op) = self.plausible(&mut rng, snap, obj, slot)
+        {
+            return op;
+        }
+        match slot {
             0 | 1 => {
                 let stats = rng.weighted(&w[0..2]) == 1;
                 let r = rng.below(100);
